@@ -71,8 +71,8 @@ def run_unit(unit, rlimit=None):
     open(vpath, 'w').write(vtext + '\nverus! { proof fn __canary_must_fail() ensures false {} }\n')
     json.dump({str(k): v for k, v in lmap.items()}, open(os.path.join(bdir, unit + '.linemap.json'), 'w'))
     with cf.ThreadPoolExecutor(2) as ex:
-        f1 = ex.submit(run_verus, path, rlimit)
-        f2 = ex.submit(run_verus, vpath, rlimit, 3)
+        f1 = ex.submit(run_verus, path, rlimit or 6, 10, 1800, True, ('--num-threads', '8'))
+        f2 = ex.submit(run_verus, vpath, rlimit or 6, 3, 1800, True, ('--num-threads', '8'))
         ur.run = f1.result()
         ur.vrun = f2.result()
     # retry on resource problems with 4x rlimit
@@ -82,8 +82,18 @@ def run_unit(unit, rlimit=None):
     # only a failure that persists in isolation is believed (context-dependent "unknown"s are not verdicts)
     ur.unstable = []
     failed = [f['function'].split('::', 1)[1] for f in ur.run.functions if not f['success'] and '::' in f['function']]
-    if failed and not ur.run.compile_errors and not ur.run.resource:
+    if failed and not ur.run.compile_errors:
+        ur.run.resource = []     # every function that hit the resource limit is in `failed` and gets its own isolated verdict below
         def iso(fn):
+            if '::' in fn and fn.split('::')[0][:1].islower():
+                mod, name = fn.rsplit('::', 1)
+                # module-qualified function (lemma libraries live in submodules); methods look like Type::name (upper-case head)
+                parts = fn.split('::')
+                k = 0
+                while k < len(parts) - 1 and parts[k][:1].islower():
+                    k += 1
+                mod, name = '::'.join(parts[:k]), '::'.join(parts[k:])
+                return fn, run_verus(path, 20, 10, 900, True, ('--verify-only-module', mod, '--verify-function', name))
             return fn, run_verus(path, 20, 10, 900, True, ('--verify-root', '--verify-function', fn))
         with cf.ThreadPoolExecutor(min(8, len(failed))) as ex:
             iso_runs = dict(ex.map(iso, failed))
@@ -244,7 +254,16 @@ def relevant(prop, spec, unit, fail):
     return True
 
 
+def strip_mod(name):
+    parts = name.split('::')
+    k = 0
+    while k < len(parts) - 1 and parts[k][:1].islower():
+        k += 1
+    return '::'.join(parts[k:])
+
+
 def fn_relevant(ucfg, name):
+    name = strip_mod(name)
     fns = ucfg.get('fns')
     if fns and not any(re.fullmatch(p, name) for p in fns):
         return False
@@ -289,9 +308,8 @@ def check_property(prop, tier='quick'):
             o = ur.lmap.get(e.get('line', 0))
             undecided.append('%s: verus rejected the unit (not a verdict): %s @gen:%s %s' % (ur.unit, e['message'][:300], e.get('line'), o or ''))
             continue
-        if ur.run.resource:
-            undecided.append('%s: resource limit: %s' % (ur.unit, ur.run.resource[0]['message'][:200]))
-            continue
+        for re_ in ur.run.resource:
+            undecided.append('%s: resource limit: %s' % (ur.unit, re_['message'][:200]))
         cmds.append(ur.run.cmd)
         smt_ms += ur.run.smt_ms
         fails = name_failures(ur)
